@@ -14,7 +14,8 @@ def env_behaviours(ctx, n, *, max_crash, max_ops, seed_off=0):
     engine is handed block 1 with its commit votes (fast-sync path), then a CsScript walk generated for height 2
     (other proposer rotation; restarts there exercise the commit-WAL / last-votes restore)."""
     n2 = n // 4
-    n1 = n - n2
+    n3 = n // 5
+    n1 = n - n2 - n3
     a = _walks(ctx, "Gen_CsScript", n1 - n1 // 2, dict(MaxOps=max_ops + 8, MaxCrash=max_crash, MaxRound=2), 3 * max_ops + 20, seed_off)
     b = _walks(ctx, "Gen_CsEnv", n1 // 2, dict(MaxOps=max_ops, Depth=max_ops, MaxCrash=max_crash), 3 * max_ops, seed_off + 1)
     c = _walks(ctx, "Gen_CsScript", n2, dict(H=2, MaxOps=max_ops + 4, MaxCrash=max_crash, MaxRound=1), 3 * max_ops + 20, seed_off + 2)
@@ -23,7 +24,7 @@ def env_behaviours(ctx, n, *, max_crash, max_ops, seed_off=0):
         others = [i for i in range(4) if i != w["me"]]
         pre = [{"op": "block", "r": 0, "from": others, "val": "B%d" % others[0]}, {"op": "height", "r": 0}]
         two.append(dict(me=w["me"], byz=w.get("byz", 0), steps=pre + w["steps"], heights=2))
-    return a + b + two
+    return a + b + two + abstract_schedules(ctx, n3, seed_off=seed_off + 3)
 
 
 def _walks(ctx, gen, n, consts, depth, seed_off):
@@ -85,6 +86,133 @@ def interest(b):
         elif s["op"] == "wait":
             score += 1 if i > 0 else 0
     return score
+
+
+IDX = {"c": 1, "byz": 2, "a": 3, "b": 0}     # OrderDef of Gen_CsAbstract = <<c, byz, a, b>>: proposer(1, r) = (1 + r) % 4
+
+
+def compile_abstract(beh, me, rnd):
+    """Project one CsAbstract behaviour on the correct validator `me` and compile it into a schedule for a real
+    engine (DESIGN.md Appendix D.5): what the other validators show it, which votes are withheld until the abstract
+    behaviour lets it learn of them (unlock / commit), timer waits and restarts. Best effort: the engine may react
+    differently from the abstract step; the verdict is CsContract on what it really did."""
+    mi = IDX[me]
+    others = [n for n in IDX if n != me]
+    names, polkas, steps = {}, {}, []
+    held_pv, held_pc, shown_pc = {}, {}, {}
+    prop = {}
+    nxt_g = {}
+    for k, st in enumerate(beh):
+        if st["a"] == "precommit":
+            nxt_g[st["r"]] = st["g"].get(me, "abstain")
+
+    def bind(v, proposer):
+        if v not in names:
+            names[v] = "own" if proposer == me else "B%d" % IDX[proposer]
+        return names[v]
+
+    def votes(t, r, pairs):
+        by = {}
+        for j, v in pairs:
+            by.setdefault(v, []).append(IDX[j])
+        return [dict(op="votes", type=t, r=r, val=v, **{"from": sorted(f)}) for v, f in by.items()]
+
+    for st in beh:
+        a, r = st["a"], st.get("r")
+        if a == "propose":
+            prop[r] = (st["proposer"], st["prop"])
+        elif a == "prevote":
+            p, pv = prop.get(r, ("byz", "none"))
+            f, polka = st["f"], st["polka"]
+            polkas[r] = polka
+            vme = f.get(me, "none")
+            if p == me:
+                if pv not in ("none", "any"):
+                    bind(pv, me)
+            elif vme not in ("none", "nil"):
+                pol = max([q for q in polkas if q < r and polkas[q] == vme], default=-1)
+                steps.append(dict(op="proposal", r=r, val=bind(vme, p), pol=pol, **{"from": IDX[p]}))
+            elif vme == "nil":
+                steps.append(dict(op="wait"))
+            pairs = []
+            for j in others:
+                v = (polka if polka != "none" else "nil") if j == "byz" else f.get(j, "none")
+                if v == "none":
+                    continue
+                v = "nil" if v == "nil" else names.get(v) or bind(v, p)
+                pairs.append((j, v))
+            g = nxt_g.get(r, "abstain")
+            if g in ("lock", "nilpolka"):
+                steps += votes("pv", r, pairs)
+            elif g == "timeout" and pairs:
+                steps += votes("pv", r, pairs[:1]) + votes("pv", r, [("byz", "nil")] if pairs[0][0] != "byz" else pairs[1:2])
+                steps.append(dict(op="wait"))
+                held_pv[r] = pairs[1:]
+            else:
+                held_pv[r] = pairs
+        elif a == "precommit":
+            g, polka, pcq = st["g"], st["polka"], st["pcq"]
+            pairs = []
+            for j in others:
+                if j == "byz":
+                    v = pcq if pcq != "none" else "nil"
+                else:
+                    gj = g.get(j, "abstain")
+                    v = polka if gj == "lock" else ("none" if gj == "abstain" else "nil")
+                if v == "none":
+                    continue
+                pairs.append((j, "nil" if v == "nil" else names.get(v, v)))
+            steps += votes("pc", r, [(j, v) for j, v in pairs if v == "nil"])
+            held_pc[r] = [(j, v) for j, v in pairs if v != "nil"]
+            shown_pc[r] = [j for j, v in pairs if v == "nil"]
+        elif a == "unlock" and st["i"] == me:
+            steps += votes("pv", st["r"], held_pv.pop(st["r"], []))
+        elif a == "commit" and st["i"] == me:
+            steps += votes("pc", st["r"], held_pc.pop(st["r"], []))
+            steps.append(dict(op="wait"))
+        elif a == "crash" and st["i"] == me:
+            steps.append(dict(op="crash", mode=rnd.choice(["graceful", "torn", "all", "synced"]), k=1000))
+        elif a == "nextround":
+            # a real engine leaves a round through its precommit timeout, which needs +2/3 precommits of any kind:
+            # top up what it was shown (the Byzantine validator may show nil to it, one held precommit may arrive)
+            # without completing a quorum for a value
+            r = st["r"]
+            shown = shown_pc.get(r, [])
+            extra = []
+            if len(shown) < 2 and "byz" not in shown:
+                extra.append(("byz", "nil"))
+                held_pc[r] = [(j, v) for j, v in held_pc.get(r, []) if j != "byz"]
+            if len(shown) + len(extra) < 2 and held_pc.get(r):
+                extra.append(held_pc[r].pop(0))
+            shown_pc[r] = shown + [j for j, _ in extra]
+            steps += votes("pc", r, extra)
+            steps.append(dict(op="wait"))
+    return dict(me=mi, byz=IDX["byz"], steps=[s for s in steps if s.get("op") != "votes" or s["from"]], origin="CsAbstract/" + me)
+
+
+def abstract_schedules(ctx, n, *, cex=False, seed_off=0):
+    """Schedules compiled from behaviours of the exhaustively checked design model (or, with cex, from the
+    disagreement behaviours of its sensitivity configuration)."""
+    rnd = random.Random(ctx.seed + seed_off)
+    if cex:
+        bs = ctx.behaviours("consensus", "Gen_CsAbstract", "Gen_CsAbstractCex.cfg", timeout=1800)
+    else:
+        bs = ctx.behaviours("consensus", "Gen_CsAbstract", "Gen_CsAbstract.cfg", simulate="num=%d" % max(100, 3 * n),
+                            depth=60, seed=ctx.seed + seed_off, timeout=900)
+    rnd.shuffle(bs)
+    out, seen = [], set()
+    for b in bs:
+        crashed = [s["i"] for s in b if s["a"] == "crash"]
+        active = [m for m in ("a", "b", "c") if any(s["a"] == "precommit" and s["g"].get(m) == "lock" for s in b)]
+        for me in (crashed or active or ["a"])[:2]:
+            sc = compile_abstract(b, me, rnd)
+            k = json.dumps(sc["steps"], sort_keys=True)
+            if len(sc["steps"]) >= 4 and k not in seen:
+                seen.add(k)
+                out.append(sc)
+        if len(out) >= n:
+            break
+    return out[:n]
 
 
 def directed(ctx):
